@@ -94,6 +94,9 @@ def run_case(case):
             raise Violation('allocation table index %s.. (%d rows), equity dates %s.. (%d)' % (
                 list(tab.index)[:3], len(tab.index), exp_days[:3], len(exp_days)))
         cols = [c for c in tab.columns]
+        want_cols = set(k for row in r.allocations for k in row if k != 'Date')
+        if set(cols) != want_cols:
+            raise Violation('allocation table has columns %s; the recorded rebalances cover %s' % (sorted(cols), sorted(want_cols)))
         j = -1
         for d in exp_days:
             while j + 1 < len(exp_calls) and exp_calls[j + 1].date() <= d:
